@@ -125,6 +125,7 @@ pub async fn run_case(case: Vec<String>, detail: bool) -> String {
     let ev2 = evlog.clone();
     let ep2 = endpoint.clone();
     let is_inv = kind == "inv";
+    let use_receive_final = case.get(12).map(|s| s == "rf").unwrap_or(false);
     let driver = tokio::spawn(async move {
         if is_inv {
             let mut tsx = match ep2.send_invite(request, &mut target).await {
@@ -163,11 +164,13 @@ pub async fn run_case(case: Vec<String>, detail: bool) -> String {
                 }
             };
             loop {
-                match tsx.receive().await {
+                // field 12 = "rf": the caller uses receive_final(), which hands over the final response only
+                let got = if use_receive_final { tsx.receive_final().await } else { tsx.receive().await };
+                match got {
                     Ok(r) => {
                         let code = r.line.code.into_u16();
                         ev2.lock().push((next_seq(), now_ms(), format!("G:{}", cls(code))));
-                        if !(100..200).contains(&code) {
+                        if !(100..200).contains(&code) || use_receive_final {
                             break;      // everything outside 1xx is final for a non-INVITE transaction
                         }
                     }
